@@ -1196,6 +1196,11 @@ func (w *walker) call(c *ast.CallExpr) {
 				role := ""
 				if lastName(se.X) == "closeLock" {
 					role = "RCloseLock"
+				} else if sx, ok := se.X.(*ast.SelectorExpr); ok {
+					switch recvTypeName(w.p.info.TypeOf(sx.X)) {
+					case "rawSocketPeer", "websocketPeer", "localPeer":
+						role = "RPeerMutex"
+					}
 				}
 				if role == "" {
 					fail(c.Pos(), "mutex with unknown role: %s", w.text(se.X))
